@@ -40,6 +40,10 @@
 // goroutines): parallelism 1 (80%) or 2, bufferSize 0/1/4, a source that never blocks (returns at
 // once, or polls its ctx a swept 0..240 times per item), f failing at a random item; the reported
 // error must be f's own (never End, never a context error the library made).
+// Group "flip" (alone, sequential): built with parallelism in {0, -1} under GOMAXPROCS(g1), then
+// GOMAXPROCS(g2) is called after k in {0, 1, n/2, n-1} results or toggled continuously by a
+// goroutine outside the scenario (2->8, 8->2, 1->4, 4->1, 3->16); all oracles, bounds judged
+// against max(g1, g2).
 // Injected error VALUES (source and f): a sentinel, context.Canceled itself, a wrapped
 // context.Canceled, context.DeadlineExceeded, an error wrapping stream.End, an error whose Is
 // method matches stream.End. The reported error must be the injected one (errors.Is(reported,
@@ -121,8 +125,16 @@ func main() {
 		r.Assume("parallelism <= 0 means runtime.GOMAXPROCS at the time of the call; GOMAXPROCS changes only where the monitor changes it itself (group \"procs\", which runs alone, sequentially, after all other groups)")
 		r.Assume("the goroutine dump format of the Go runtime in use (go1.23) — used for the STUCK verdict and the leak check")
 
-		nIter := r.Scale(900, 2300)
-		nStream := r.Scale(2400, 5800)
+		// The 32-bit variant (thorough only) runs everything at quick-tier sizes.
+		thorough := r.Thorough() && !r.VariantHas("386")
+		scale := func(quick, many int) int {
+			if thorough {
+				return many
+			}
+			return quick
+		}
+		nIter := scale(900, 2300)
+		nStream := scale(2400, 5800)
 		workers := 4
 		if runtime.GOMAXPROCS(0) < 4 {
 			workers = 2
@@ -134,8 +146,8 @@ func main() {
 		// Small scope, enumerated: every wanted completion order of f x parallelism x bufferSize x
 		// consumer-dependent source model (so that results sit in the reorder heap while the
 		// source waits for the consumer).
-		small := smallSpecs(r.Thorough())
-		nRand := r.Scale(150, 600)
+		small := smallSpecs(thorough)
+		nRand := scale(150, 600)
 		for _, api := range []string{"iter", "stream"} {
 			api := api
 			r.Cases("small-"+api, len(small), workers, func(c *vkit.Case) { runPlan(c, mkSmallPlan(c.Rand, api, small[c.Index]), st) })
@@ -149,7 +161,7 @@ func main() {
 		// Extreme bufferSize values (MapIterator only: MapStream allocates channels of capacity
 		// bufferSize, so it cannot be called with them on any tree).
 		var ext []extSpec
-		for rep := 0; rep < r.Scale(2, 8); rep++ {
+		for rep := 0; rep < scale(2, 8); rep++ {
 			for _, par := range []int{1, 3, 8, 0, -1} {
 				for bk := 0; bk < 5; bk++ {
 					ext = append(ext, extSpec{par: par, bk: bk})
@@ -160,7 +172,7 @@ func main() {
 
 		// Dense: very many tiny MapStream runs in which f fails while the sender goroutine is busy
 		// (never parked): the reported error must be f's, never a cancellation made by the library.
-		nDense := r.Scale(160, 320)
+		nDense := scale(160, 320)
 		tDense := time.Now()
 		r.Cases("dense", nDense, 2*workers, func(c *vkit.Case) { runDense(c, denseBatch) })
 		r.SetExtra("dense_group_wall_s", time.Since(tDense).Seconds())
@@ -175,7 +187,7 @@ func main() {
 			procsVals = append(procsVals, h)
 		}
 		var procs []procsSpec
-		for rep := 0; rep < r.Scale(1, 3); rep++ {
+		for rep := 0; rep < scale(1, 3); rep++ {
 			for _, g := range procsVals {
 				for _, api := range []string{"iter", "stream"} {
 					for _, par := range []int{0, -1} {
@@ -191,6 +203,32 @@ func main() {
 			old := runtime.GOMAXPROCS(sp.g)
 			defer runtime.GOMAXPROCS(old)
 			runPlan(c, mkProcsPlan(c.Rand, sp), st)
+		})
+
+		// GOMAXPROCS changed WHILE an iterator / stream built with parallelism <= 0 is alive (after k
+		// results, or continuously by a toggler goroutine): the number of workers and everything
+		// derived from it was fixed when it was built. Runs alone, one case at a time.
+		var flips []flipSpec
+		for rep := 0; rep < scale(1, 2); rep++ {
+			for _, gg := range [][2]int{{2, 8}, {8, 2}, {1, 4}, {4, 1}, {3, 16}} {
+				for _, api := range []string{"iter", "stream"} {
+					for _, par := range []int{0, -1} {
+						for _, n := range []int{6, 40} {
+							for _, at := range []int{0, 1, n / 2, n - 1, -1} {
+								flips = append(flips, flipSpec{api: api, g1: gg[0], g2: gg[1], par: par, n: n, at: at, buf: []int{-3, 0, 2}[len(flips)%3]})
+							}
+						}
+					}
+				}
+			}
+		}
+		tFlip := time.Now()
+		defer func() { r.SetExtra("flip_group_wall_s", time.Since(tFlip).Seconds()) }()
+		r.Cases("flip", len(flips), 1, func(c *vkit.Case) {
+			sp := flips[c.Index]
+			old := runtime.GOMAXPROCS(sp.g1)
+			defer runtime.GOMAXPROCS(old)
+			runPlan(c, mkFlipPlan(c.Rand, sp), st)
 		})
 
 		st.mu.Lock()
@@ -228,6 +266,7 @@ func main() {
 			r.Floor("dense tiny MapStream runs (f fails while the sender is busy)", r.Table("dense", "streams"), int64(nDense*denseBatch))
 			r.Floor("dense runs in which f's own error surfaced", r.Table("dense", "f's error surfaced"), int64(nDense*denseBatch))
 			r.Floor("dense runs at parallelism 1", r.Table("dense", "parallelism 1"), int64(nDense*denseBatch/2))
+			r.Floor("cases in which GOMAXPROCS was changed while the iterator / stream was alive", r.Table("cases", "flip"), int64(len(flips)))
 			r.Floor("errors surfaced that f returned", r.Table("stream error", "from f"), 20)
 			r.Floor("errors surfaced that the source returned", r.Table("stream error", "from source"), 20)
 		}
@@ -266,6 +305,11 @@ type plan struct {
 	Perm       []int  `json:"f_completion_order_wanted,omitempty"`
 	// Procs > 0: the case runs after runtime.GOMAXPROCS(Procs) was called in this process.
 	Procs int `json:"gomaxprocs_set_in_process,omitempty"`
+	// G2 > 0: built under GOMAXPROCS(G1); GOMAXPROCS(G2) is called after FlipAt results were
+	// received (FlipAt < 0: a goroutine toggles between G1 and G2 all the time).
+	G1     int `json:"gomaxprocs_when_built,omitempty"`
+	G2     int `json:"gomaxprocs_changed_to,omitempty"`
+	FlipAt int `json:"gomaxprocs_changed_after_results,omitempty"`
 	// SrcBlockAt >= 0: after that many items the source's Next blocks until its ctx is done.
 	SrcBlockAt int `json:"source_blocks_after"`
 	P          int `json:"effective_parallelism"`
@@ -433,7 +477,11 @@ func mkExtremePlan(rnd *vkit.Rand, sp extSpec) *plan {
 	if p <= 0 {
 		p = runtime.GOMAXPROCS(0)
 	}
-	buf := []int{math.MaxInt, math.MaxInt - 1, math.MaxInt - p, math.MaxInt / 2, 1 << 40}[sp.bk]
+	huge := math.MaxInt/2 + 1
+	if strconv.IntSize == 64 {
+		huge = 1 << (strconv.IntSize/2 + 8) // 1<<40; written so that it also compiles where int has 32 bits
+	}
+	buf := []int{math.MaxInt, math.MaxInt - 1, math.MaxInt - p, math.MaxInt / 2, huge}[sp.bk]
 	pl := basePlan(rnd, "iter", vkit.Pick(rnd, []int{0, 1, 2, 5, 17, 40}), sp.par, buf)
 	pl.Lat = "rev"
 	pl.Mode = "extreme-buffer"
@@ -628,6 +676,44 @@ func runDense(c *vkit.Case, batch int) {
 	rep.Count("dense", "f's error surfaced", batch)
 	rep.Count("dense", "parallelism 1", nPar1)
 	rep.Distinct(fmt.Sprintf("dense|%d", c.Index))
+}
+
+// GOMAXPROCS changed while the pipeline is alive.
+
+type flipSpec struct {
+	api                     string
+	g1, g2, par, n, at, buf int
+}
+
+// mkFlipPlan must be called after runtime.GOMAXPROCS(sp.g1).
+func mkFlipPlan(rnd *vkit.Rand, sp flipSpec) *plan {
+	pl := basePlan(rnd, sp.api, sp.n, sp.par, sp.buf)
+	pl.G1, pl.G2, pl.FlipAt = sp.g1, sp.g2, sp.at
+	pl.Mode = "gomaxprocs-flip"
+	pl.SrcCtx = true
+	// Judged against the largest value that could be in force.
+	pmax := imax(sp.g1, sp.g2)
+	pl.Bound = satAdd(imax(pl.Buf, 0), pmax+1)
+	pl.Lat = "random"
+	for i := range pl.lat {
+		if rnd.Bool(0.7) {
+			pl.lat[i] = int32(rnd.Intn(150))
+		}
+	}
+	if rnd.Bool(0.5) {
+		pl.Pace = "slow"
+		for i := range pl.paceLat {
+			pl.paceLat[i] = int32(rnd.Intn(120))
+		}
+	}
+	return pl
+}
+
+// flip changes GOMAXPROCS when the consumer has received FlipAt results (called by the consumer).
+func (r *run) flip(got int) {
+	if r.pl.G2 > 0 && r.pl.FlipAt == got && r.flipped.CompareAndSwap(false, true) {
+		runtime.GOMAXPROCS(r.pl.G2)
+	}
 }
 
 // GOMAXPROCS changed in-process.
@@ -909,6 +995,13 @@ func (pl *plan) srcDesc() string {
 	if pl.Procs > 0 {
 		d = fmt.Sprintf("plain (after runtime.GOMAXPROCS(%d) in this process, so parallelism %d means %d)", pl.Procs, pl.Par, pl.P)
 	}
+	if pl.G2 > 0 {
+		when := fmt.Sprintf("after %d results", pl.FlipAt)
+		if pl.FlipAt < 0 {
+			when = "back and forth all the time"
+		}
+		d = fmt.Sprintf("plain (built under GOMAXPROCS(%d), GOMAXPROCS(%d) called %s)", pl.G1, pl.G2, when)
+	}
 	switch pl.Dep {
 	case "lag":
 		d = fmt.Sprintf("pull m waits until the consumer has received m-%d results", pl.DepK)
@@ -944,8 +1037,8 @@ func (pl *plan) key() string {
 	if len(pl.FailAt) > 0 {
 		fa = fmt.Sprintf("%dx%s", len(pl.FailAt), bucket(pl.FailAt[0], pl.N))
 	}
-	return fmt.Sprintf("%s|%d|%d/%d|%d|%s|%s|%s|f%s|s%s|c%s|%s|o%s|x%v|g%v|l%s|b%s|e%s/%s|%v|G%d", pl.API, pl.N, pl.Par, pl.P, pl.Buf, pl.Lat, pl.Pace, pl.Mode,
-		fa, bucket(pl.SrcErrAt, pl.N), bucket(pl.CloseAt, pl.N), pl.FMode, bucket(pl.OuterAt, pl.N), pl.Expiry, pl.Strag >= 0, lagBucket(pl), bucket(pl.SrcBlockAt, pl.N), pl.SrcErrKind, pl.FErrKind, pl.Perm, pl.Procs)
+	return fmt.Sprintf("%s|%d|%d/%d|%d|%s|%s|%s|f%s|s%s|c%s|%s|o%s|x%v|g%v|l%s|b%s|e%s/%s|%v|G%d|F%d>%d@%d", pl.API, pl.N, pl.Par, pl.P, pl.Buf, pl.Lat, pl.Pace, pl.Mode,
+		fa, bucket(pl.SrcErrAt, pl.N), bucket(pl.CloseAt, pl.N), pl.FMode, bucket(pl.OuterAt, pl.N), pl.Expiry, pl.Strag >= 0, lagBucket(pl), bucket(pl.SrcBlockAt, pl.N), pl.SrcErrKind, pl.FErrKind, pl.Perm, pl.Procs, pl.G1, pl.G2, pl.FlipAt)
 }
 
 // ---------------------------------------------------------------------------------------------
@@ -983,9 +1076,10 @@ type run struct {
 	progress     chan struct{} // 1-slot wake-up for the single source goroutine
 	srcWaited    atomic.Int64  // pulls that really had to wait for the consumer
 	doneCnt      atomic.Int64  // completed calls of f
-	gateTimeouts atomic.Int64  // small scope: calls that did not get their wanted completion rank
-	srcBlocks    atomic.Int64  // Next calls that blocked until ctx was done
-	phase        atomic.Value  // string
+	flipped      atomic.Bool
+	gateTimeouts atomic.Int64 // small scope: calls that did not get their wanted completion rank
+	srcBlocks    atomic.Int64 // Next calls that blocked until ctx was done
+	phase        atomic.Value // string
 
 	mu    sync.Mutex
 	order []int32 // completion order of f
@@ -1260,6 +1354,7 @@ func (r *run) iterScenario(o *outcome) {
 	r.phase.Store("next")
 	got := 0
 	for {
+		r.flip(got)
 		r.nextStarted.Add(1)
 		var v int
 		var ok bool
@@ -1336,6 +1431,7 @@ func (r *run) streamScenario(o *outcome) {
 	got, ord := 0, 0
 	var final error
 	for pl.CloseAt < 0 || got < pl.CloseAt {
+		r.flip(got)
 		if pl.OuterAt == got && !outerCancelled {
 			outerCancel()
 			outerCancelled = true
@@ -1595,6 +1691,24 @@ func runPlan(c *vkit.Case, pl *plan, st *stats) {
 			r.streamScenario(&o)
 		}
 	}()
+	// The toggler is started here, not by the root goroutine: it is no part of the scenario for the
+	// STUCK verdict.
+	var stopTog, togDone chan struct{}
+	if pl.G2 > 0 && pl.FlipAt < 0 {
+		stopTog, togDone = make(chan struct{}), make(chan struct{})
+		go func() {
+			defer close(togDone)
+			for g := pl.G2; ; g = pl.G1 + pl.G2 - g {
+				select {
+				case <-stopTog:
+					return
+				default:
+				}
+				runtime.GOMAXPROCS(g)
+				time.Sleep(150 * time.Microsecond)
+			}
+		}()
+	}
 	verdict, dump := vkit.Await(done, vkit.AwaitOpts{
 		Relevant: func(g vkit.G) bool {
 			id := int(rootID.Load())
@@ -1603,6 +1717,10 @@ func runPlan(c *vkit.Case, pl *plan, st *stats) {
 		Soft: 3 * time.Second,
 		Hard: 90 * time.Second,
 	})
+	if stopTog != nil {
+		close(stopTog)
+		<-togDone
+	}
 	witness := func(extra map[string]any) map[string]any {
 		w := map[string]any{
 			"plan": pl, "results_received": r.got.Load(), "taken": r.taken.Load(), "next_started": r.nextStarted.Load(),
@@ -1645,6 +1763,9 @@ func runPlan(c *vkit.Case, pl *plan, st *stats) {
 	}
 	if v == nil && pl.Procs > 0 && r.gauge.Max() > int64(pl.P) {
 		v = &viol{"f-concurrency", fmt.Sprintf("%s: %d calls of f ran at the same time although parallelism=%d means GOMAXPROCS = %d at the time of the call", api, r.gauge.Max(), pl.Par, pl.P), nil}
+	}
+	if pm := imax(pl.G1, pl.G2); v == nil && pl.G2 > 0 && r.gauge.Max() > int64(pm) {
+		v = &viol{"f-concurrency", fmt.Sprintf("%s: %d calls of f ran at the same time although parallelism=%d means GOMAXPROCS, which never exceeded %d", api, r.gauge.Max(), pl.Par, pm), nil}
 	}
 	if v != nil {
 		what := fmt.Sprintf("%s [len=%d parallelism=%d bufferSize=%d latency=%s pace=%s plan=%s close_after=%d f_ctx=%s source=%s]", v.what, pl.N, pl.Par, pl.Buf, pl.Lat, pl.Pace, pl.Mode, pl.CloseAt, pl.FMode, pl.srcDesc())
@@ -1718,6 +1839,13 @@ func runPlan(c *vkit.Case, pl *plan, st *stats) {
 		if mi >= pl.lim {
 			rep.Count("procs", "in-flight reached max(buffer,GOMAXPROCS)+1", 1)
 		}
+	}
+	if pl.G2 > 0 {
+		when := "after k results"
+		if pl.FlipAt < 0 {
+			when = "toggled all the time"
+		}
+		rep.Count("flip", fmt.Sprintf("%s GOMAXPROCS %d -> %d %s", api, pl.G1, pl.G2, when), 1)
 	}
 	if pl.Perm != nil {
 		match := nOrder == len(pl.Perm)
